@@ -75,7 +75,10 @@ func GetCPUPlans(resourceInfo *types.NodeResourceInfo, originCPUMap types.CPUMap
 
 	// get cpu plan for each numa node
 	for numaNodeID, cpuMap := range numaCPUMap {
-		numaCPUPlans := doGetCPUPlans(originCPUMap, cpuMap, availableResource.NUMAMemory[numaNodeID], shareBase, maxFragmentCores, req.CPURequest, req.MemRequest)
+		// memory of a numa node is also part of the node's memory, which workloads without
+		// cpu binding use as well: a plan must fit in both
+		availableMemory := utils.Min(availableResource.NUMAMemory[numaNodeID], availableResource.Memory)
+		numaCPUPlans := doGetCPUPlans(originCPUMap, cpuMap, availableMemory, shareBase, maxFragmentCores, req.CPURequest, req.MemRequest)
 		for _, workloadCPUMap := range numaCPUPlans {
 			cpuPlans = append(cpuPlans, &types.CPUPlan{
 				NUMANode: numaNodeID,
